@@ -980,4 +980,119 @@ def gen_RegArith() -> None:
     emit("RegArith", body, {"functions": out.meta})
 
 
-GENERATORS = {"RegArith": gen_RegArith}
+# ------------------------------------------------------------------------------------------------ RegProc (phase 3)
+def _proc_classes(tree):
+    """ConfigProcessor and every class of the module deriving from it (transitively), in source order, base class first"""
+    classes = [st for st in tree.body if isinstance(st, ast.ClassDef)]
+    by_name = {c.name: c for c in classes}
+    derived = {"ConfigProcessor"} if "ConfigProcessor" in by_name else set()
+    changed = True
+    while changed:
+        changed = False
+        for c in classes:
+            if c.name not in derived and any(callee(b) in derived for b in c.bases):
+                derived.add(c.name)
+                changed = True
+    order = [c for c in classes if c.name in derived]
+    order.sort(key=lambda c: c.name != "ConfigProcessor")
+    return order, by_name
+
+
+def _resolve(cls, by_name, mname, seen=()):
+    for st in cls.body:
+        if isinstance(st, ast.FunctionDef) and st.name == mname:
+            return cls, st
+    for b in cls.bases:
+        bn = callee(b)
+        if bn in by_name and bn not in seen:
+            r = _resolve(by_name[bn], by_name, mname, seen + (cls.name,))
+            if r:
+                return r
+    return None
+
+
+def _lstr(x):
+    return '"' + x.replace("\\", "\\\\").replace('"', '\\"') + '"'
+
+
+def _split_consts(fn):
+    """string constants handed to split / partition / replace, in evaluation (source) order"""
+    out = []
+    for n in ast.walk(fn):
+        if isinstance(n, ast.Call) and isinstance(n.func, ast.Attribute) and n.func.attr in ("split", "partition", "replace", "rsplit"):
+            for a in n.args:
+                if isinstance(a, ast.Constant) and isinstance(a.value, str):
+                    out.append((n.lineno, n.col_offset, n.func.attr, a.value))
+    out.sort()
+    return [f"{attr}:{v}" for _, _, attr, v in out]
+
+
+def gen_RegProc() -> None:
+    head = ["import SpsdkVerif.Base.Py", "import SpsdkVerif.Base.PyInt", "import SpsdkVerif.Base.PyIntOps", "",
+            "namespace SpsdkVerif.Generated.RegProc", "open SpsdkVerif", "",
+            "/-- one class of registers.py deriving from `ConfigProcessor` (the base class itself comes first): `NAME`, the instance",
+            "    attributes its three methods read (`ps` carries their values in this order), the keys `from_str` takes them from -/",
+            "structure Proc where", "  cls : String", "  name : String", "  params : List String", "  keys : List String",
+            "  pre : List Int → Int → Int", "  post : List Int → Int → Int", "  width : List Int → Int → Int", ""]
+    meta = {"classes": {}}
+    entries, dispatch, syntax = [], [], []
+    try:
+        tree = parse(REGS)
+        menv = ModuleEnv(tree)
+        order, by_name = _proc_classes(tree)
+    except Exception as exc:  # noqa: BLE001
+        order, by_name, tree = [], {}, ast.parse("")
+        meta["errors"] = [f"{type(exc).__name__}: {exc}"]
+    for cls in order:
+        try:
+            name = menv.cls(cls.name).value("NAME")
+            if not isinstance(name, str):
+                raise Untr("NAME is not a string")
+            attrs = set()
+            fns = {}
+            for mname in ("pre_process", "post_process", "width_update"):
+                r = _resolve(cls, by_name, mname)
+                if not r:
+                    raise Untr(f"{mname} not found")
+                fns[mname] = r
+                for n in ast.walk(r[1]):
+                    if isinstance(n, ast.Attribute) and isinstance(n.value, ast.Name) and n.value.id == "self":
+                        attrs.add(n.attr)
+            params = sorted(attrs)
+            amap = {f"self.{a}": ("var", f"(ps.getD {i} 0)") for i, a in enumerate(params)}
+            bodies = {}
+            for mname, (owner, fn) in fns.items():
+                o = Exec(Ctx(owner, dict(amap))).block(list(fn.body), {first_param(fn): ("var", "value")}, None)
+                bodies[mname] = lean_outcome(o, "plain")
+            keys = []
+            fs = _resolve(cls, by_name, "from_str")
+            if fs and cls.name != "ConfigProcessor":
+                for n in ast.walk(fs[1]):
+                    if isinstance(n, ast.Subscript) and isinstance(n.slice, ast.Constant) and isinstance(n.slice.value, str) and n.slice.value not in keys:
+                        keys.append(n.slice.value)
+            entries.append("  { cls := %s, name := %s, params := [%s], keys := [%s],\n    pre := fun ps value => %s,\n    post := fun ps value => %s,\n    width := fun ps value => %s }"
+                           % (_lstr(cls.name), _lstr(name), ", ".join(map(_lstr, params)), ", ".join(map(_lstr, keys)),
+                              bodies["pre_process"], bodies["post_process"], bodies["width_update"]))
+            if cls.name != "ConfigProcessor":
+                dispatch.append(name)
+            meta["classes"][cls.name] = {"mode": "translated", "name": name, "params": params}
+        except Exception as exc:  # noqa: BLE001 - an unreadable class becomes an entry no theorem accepts
+            entries.append("  { cls := %s, name := \"?\", params := [], keys := [], pre := fun _ _ => -1, post := fun _ _ => -1, width := fun _ _ => -1 }" % _lstr(cls.name))
+            meta["classes"][cls.name] = {"mode": "untranslatable", "reason": f"{type(exc).__name__}: {exc}"}
+    try:
+        base = by_name["ConfigProcessor"]
+        for mname in ("get_method_name", "get_params", "get_description"):
+            r = _resolve(base, by_name, mname)
+            syntax.append((mname, _split_consts(r[1]) if r else ["?"]))
+    except Exception as exc:  # noqa: BLE001
+        syntax = [("?", [str(type(exc).__name__)])]
+    lines = head + ["def procs : List Proc := [", ",\n".join(entries), "]", "",
+                    "/-- `ConfigProcessor.from_spec`: the `NAME`s of the subclasses it dispatches over (anything else: no processor) -/",
+                    "def dispatch : List String := [%s]" % ", ".join(map(_lstr, dispatch)), "",
+                    "/-- the string constants of the configuration-string syntax (`<NAME>:<KEY>=<int>,…;DESC=<text>`), per method, in source order -/",
+                    "def syntaxConsts : List (String × List String) := [%s]" % ", ".join("(%s, [%s])" % (_lstr(m), ", ".join(map(_lstr, cs))) for m, cs in syntax), "",
+                    "end SpsdkVerif.Generated.RegProc"]
+    emit("RegProc", "\n".join(lines) + "\n", meta)
+
+
+GENERATORS = {"RegArith": gen_RegArith, "RegProc": gen_RegProc}
